@@ -12,7 +12,9 @@ def occursBefore (l : List Ev) (p q : Ev → Bool) : Bool :=
   | none, _ => false
 
 def isOp : Ev → Bool | .op _ => true | _ => false
-def isShareMove : Ev → Bool | .op _ => true | .socializeLoss => true | .capacity => true | _ => false
+/-- calls that read or move share-denominated state, or stamp `last_update` (`update_bank_cache` writes
+    `last_update = now`, so running it before the accrual would turn the accrual into a no-op) -/
+def isShareMove : Ev → Bool | .op _ => true | .socializeLoss => true | .capacity => true | .updateBankCache => true | _ => false
 def isAccrue (r : Recv) : Ev → Bool | .accrue r' => r == r' | _ => false
 def isSigner (v : Vault) : Ev → Bool | .signer v' => v == v' | _ => false
 def isBankState : Ev → Bool | .bankState _ _ => true | _ => false
